@@ -306,7 +306,7 @@ func (d *Driver) pumpBackends() bool {
 }
 
 func (d *Driver) feedAll(bc *BConn) bool {
-	if bc.Sock.OutLen() == 0 {
+	if bc.Sock.OutLen() == 0 || bc.Node.Hung {
 		return false
 	}
 	b := d.K.TakeOut(bc.Sock, 0)
@@ -331,7 +331,7 @@ func clip(b []byte, n int) []byte {
 
 func (d *Driver) releasable(bc *BConn) int {
 	// number of bytes of queued replies that may be released now (FIFO: stops at the first held reply)
-	if bc.Dead || bc.Stalled || bc.Sock.Closed() {
+	if bc.Dead || bc.Stalled || bc.Sock.Closed() || bc.Node.Hung {
 		return 0
 	}
 	n := 0
@@ -346,11 +346,23 @@ func (d *Driver) releasable(bc *BConn) int {
 		if r.HoldFor > 0 && now.Before(r.ReadyAt) {
 			break
 		}
+		off := 0
 		if i == 0 {
-			n += len(r.Reply) - bc.relOff
-		} else {
-			n += len(r.Reply)
+			off = bc.relOff
 		}
+		if r.TrickleFor > 0 && r.TrickleCut < len(r.Reply) {
+			if off < r.TrickleCut {
+				n += r.TrickleCut - off // the prefix leaves now, nothing after it
+				break
+			}
+			if r.TrickleUntil.IsZero() {
+				r.TrickleUntil = now.Add(r.TrickleFor)
+			}
+			if now.Before(r.TrickleUntil) {
+				break
+			}
+		}
+		n += len(r.Reply) - off
 	}
 	return n
 }
@@ -373,11 +385,41 @@ func (d *Driver) release(bc *BConn, n int) {
 			r.RelAt = time.Since(d.Start)
 			bc.Pending = bc.Pending[1:]
 			bc.relOff = 0
+			if bc.prevLens = append(bc.prevLens, len(r.Reply)); len(bc.prevLens) > 4 {
+				bc.prevLens = bc.prevLens[1:]
+			}
 			if r.Kind == "protoerr" {
 				d.K.PeerFin(bc.Sock)
 			}
 		}
 	}
+}
+
+// alignedAmount picks how many of the max releasable bytes leave now: a piece that ends on a reply boundary, or that carries
+// exactly as many bytes of the next reply as an earlier reply on this connection was long (tape choice 0 = everything).
+func (d *Driver) alignedAmount(bc *BConn, max int) int {
+	if max <= 1 || len(bc.Pending) == 0 {
+		return max
+	}
+	rem0 := len(bc.Pending[0].Reply) - bc.relOff
+	cands := []int{max}
+	add := func(n int) {
+		if n >= 1 && n <= max {
+			cands = append(cands, n)
+		}
+	}
+	add(rem0)
+	for _, l := range bc.prevLens {
+		if bc.relOff == 0 {
+			add(l) // the first piece of this reply is as long as an earlier reply
+		}
+		if len(bc.Pending) > 1 {
+			add(rem0 + l) // the rest of this reply plus a prefix of the next one as long as an earlier reply
+		}
+	}
+	add(rem0 - 1)
+	add(rem0 + 1)
+	return cands[d.T.Choose(len(cands))]
 }
 
 func (d *Driver) releaseAll(bc *BConn) bool {
@@ -451,7 +493,7 @@ func (d *Driver) connect(c *ClientState) {
 	pn := 0
 	fmt.Sscanf(port, "%d", &pn)
 	c.Sock = d.K.NewClientConn(fmt.Sprintf("c%d", c.Idx), &net.TCPAddr{IP: net.ParseIP(host), Port: pn})
-	if c.Plan.Slow || c.Plan.NeverRead {
+	if c.Plan.Slow || c.Plan.NeverRead || c.Plan.ReadAfterMs > 0 {
 		c.Sock.sndCap = d.K.Cfg.ClientSndCap
 	}
 	c.Connected = true
@@ -538,6 +580,9 @@ func (d *Driver) recvable(c *ClientState) int {
 	if c.Sock == nil || c.Plan.NeverRead || c.SelfClosed {
 		return 0
 	}
+	if c.Plan.ReadAfterMs > 0 && time.Since(c.connectedAt) < time.Duration(c.Plan.ReadAfterMs)*time.Millisecond {
+		return 0
+	}
 	return c.Sock.OutLen()
 }
 
@@ -589,6 +634,9 @@ func (d *Driver) clientFinished(c *ClientState) bool {
 func (d *Driver) startable(c *ClientState) bool {
 	if c.Connected || d.Hold[c.Idx] {
 		return false
+	}
+	if c.Plan.StartAfterMs > 0 {
+		return !d.WorkStart.IsZero() && time.Since(d.WorkStart) >= time.Duration(c.Plan.StartAfterMs)*time.Millisecond
 	}
 	if c.Plan.StartAfterEvents {
 		for _, e := range d.events {
@@ -779,6 +827,12 @@ func (d *Driver) applyEvent(e *Event, target *BConn) {
 			}
 			d.trace("slot %d migrating %s -> %s", e.Slot, owner.Addr, e.To)
 		}
+	case "hang-node":
+		if n := d.C.Nodes[e.Node]; n != nil {
+			n.Hung = true
+			n.AuxMode = "stall"
+			d.trace("node %s hangs (stops reading and answering)", e.Node)
+		}
 	case "aux-mode":
 		if n := d.C.Nodes[e.Node]; n != nil {
 			n.AuxMode = e.To
@@ -833,7 +887,7 @@ func (d *Driver) enabled() []action {
 		if bc.Dead {
 			continue
 		}
-		if bc.Sock.OutLen() > 0 {
+		if bc.Sock.OutLen() > 0 && !bc.Node.Hung {
 			acts = append(acts, action{kind: "consume", bc: bc, w: s.WConsume})
 		}
 		if d.releasable(bc) > 0 {
@@ -914,8 +968,14 @@ func (d *Driver) exec(a action) {
 		d.feedAll(a.bc)
 	case "release":
 		n := d.amount(d.releasable(a.bc))
+		if d.P.Sched.AlignedRelease {
+			n = d.alignedAmount(a.bc, d.releasable(a.bc))
+		}
 		d.release(a.bc, n)
 		d.trace("node %s conn#%d releases %d reply bytes", a.bc.Node.Addr, a.bc.ID, n)
+		if d.P.Sched.AlignedRelease {
+			d.Poll()
+		}
 	case "poll":
 		d.Poll()
 	case "time":
